@@ -292,6 +292,42 @@ def run(ctx):
                 res.violations.append({"what": "another process reads the result of kind %s (written with %s) differently: %s" % (name, proto, str(there.get(k))[:80]),
                                        "input": {"value": name, "protocol": proto}, "kf": None})
         res.sample({"values": [n for (n, _) in vs], "protocols": dict((written[k][0], written[k][2]) for k in written)})
+        # through the object cache (set_store(cache_objects=...)): what is read back in the writing process is what the codec
+        # wrote - the same as a second, uncached handle on the same directories reads - also when the caller goes on modifying
+        # the object it has just stored
+        import copy
+        from dds._lru_store import LRUCacheStore
+        ci, cd = os.path.join(tmp, "ci"), os.path.join(tmp, "cd")
+        cached = LRUCacheStore(LocalFileStore(ci, cd), num_elem=100)
+        plain = LocalFileStore(ci, cd)
+        muts = [(n, v) for (n, v) in vs if n in ("list", "dict", "object", "mytype", "str_ascii", "bytes", "none") or n.startswith("pandas")]
+        muts += [("bytearray", bytearray(b"\x00abc")), ("list_nested", [[1], [2]])]
+        for name, v in muts:
+            key = "ckey_" + name
+            try:
+                cached.store_blob(key, v, None)
+                # the caller keeps working on its object
+                if isinstance(v, list):
+                    v.append("later")
+                elif isinstance(v, dict):
+                    v["later"] = 1
+                elif isinstance(v, bytearray):
+                    v.extend(b"later")
+                elif isinstance(v, MyType):
+                    v.x = ("later",)
+                elif type(v).__name__ == "DataFrame":
+                    v["later"] = 1
+                got = cached.fetch_blob(key)
+                want = plain.fetch_blob(key)
+                ok = canon_value(got) == canon_value(want) and type(got) is type(want)
+            except BaseException as e:
+                got, want, ok = "EXC:%s:%s" % (type(e).__name__, str(e)[:80]), None, False
+            res.evaluations += 1
+            res.nontrivial("cached " + name)
+            if not ok:
+                res.violations.append({"what": "through the object cache the result of kind %s is read back as %s in the writing process; "
+                                               "the store holds %s" % (name, repr(got)[:80], repr(want)[:80]),
+                                       "input": {"value": name, "store": "LRUCacheStore(LocalFileStore)", "modified_after_store": True}, "kf": None})
     finally:
         codec_mod._registry = saved_registry
         shutil.rmtree(tmp, ignore_errors=True)
